@@ -6,7 +6,7 @@ from . import daemon, sandbox
 from .common import NPROC
 
 
-def run_real(ctx):
+def run_real(ctx, slow=False):
     if not sandbox.available():
         return {"violations": [], "evaluations": 0, "distinct": 0, "inconclusive": "unshare -m with a private tmpfs on /run is not available"}
     b = daemon.build(ctx)
@@ -18,10 +18,12 @@ def run_real(ctx):
         o = os.path.join(ctx.tmp, "c13real-%d.json" % i)
         outs.append(o)
         silent = "1" if (not q and i < 4) else "0"
-        count = (40 if silent == "1" else (400 if q else 6000)) * n
-        jobs.append(sandbox.wrap([b, "c13real", "--seed", str(ctx.seed * 1000 + 13), "--count", str(count), "--shard", "%d/%d" % (i, n), "--out", o, "--replays", ctx.replay_dir, "--silent", silent]))
+        # late answers (real seconds each): a few scripts on some shards, when asked for
+        slow_s = "1" if (slow and 4 <= i < (8 if q else 12)) else "0"
+        count = (40 if silent == "1" else ((5 if q else 60) if slow_s == "1" else (400 if q else 6000))) * n
+        jobs.append(sandbox.wrap([b, "c13real", "--seed", str(ctx.seed * 1000 + 13), "--count", str(count), "--shard", "%d/%d" % (i, n), "--out", o, "--replays", ctx.replay_dir, "--silent", silent, "--slow", slow_s]))
     res = ctx.run_parallel(jobs, 1500)
-    agg = {"evaluations": 0, "distinct": 0, "steps": 0, "coarse_reads": 0, "kinds": {}, "threshold_edges": {}, "violations": [], "samples": []}
+    agg = {"evaluations": 0, "distinct": 0, "steps": 0, "coarse_reads": 0, "phc_read_failures_injected": 0, "kinds": {}, "threshold_edges": {}, "violations": [], "samples": []}
     lost = 0
     for (rc, text), o in zip(res, outs):
         if rc != 0 or not os.path.exists(o):
@@ -31,7 +33,7 @@ def run_real(ctx):
         j = json.load(open(o))
         if j.get("inconclusive"):
             agg["inconclusive"] = j["inconclusive"]
-        for k in ("evaluations", "distinct", "steps", "coarse_reads"):
+        for k in ("evaluations", "distinct", "steps", "coarse_reads", "phc_read_failures_injected"):
             agg[k] += j.get(k, 0)
         for k in ("kinds", "threshold_edges"):
             for kk, vv in j.get(k, {}).items():
